@@ -132,6 +132,16 @@ def ts_jobs(tier):
                     "props": ["nodeadlock", "exactly_once", "bounded"], "window_at": k, "twin_prog": "progress", "hold": [2],
                     "prefix": [("rr_cond", "backlog", [1] + list(range(3, 3 + mx + 2)))]}
             out.append((dict(base, name="c12-backlog-max{0}min{1}-op{2}".format(mx, mn, k)), dict(full, depth=full["depth"] + 6)))
+    # (4) a connection is accepted while the pool's idle worker is at its retirement decision / idle
+    #     time-out (the default request pool shrinks to 0 workers): the request is still served
+    for mx, mn in sizes:
+        ops = ["start", "enq0", "await0", "enq1", "await1"]
+        base = {"max": mx, "min": mn, "tasks": ["ret", "ret"], "clients": [ops], "props": ["exactly_once", "nodeadlock", "results"],
+                "window_at": 3, "twin_prog": "progress"}
+        out.append((dict(base, name="c12-retire-max{0}min{1}-aftertask".format(mx, mn)), dict(full, depth=full["depth"] + 2)))
+        for w in range(mx):
+            out.append((dict(base, name="c12-retire-max{0}min{1}-idle{2}".format(mx, mn, w), prefix=[("until", 1 + w, {"label": "Queue.get"})]),
+                        dict(full, depth=full["depth"] + 2)))
     return out, tr
 
 
